@@ -29,7 +29,10 @@ What is extracted (properties C01 and C05):
                     0 Data.update_components          1 Data.update_values_from_data
                     2 SubsetState attribute assignment (`SubsetState.__setattr__`)
                     3 RoiSubsetStateNd.move_to (in-place move of the ROI object)
-                    4 Data._set_externally_derivable_components (links added / removed)
+                    4 Data._set_externally_derivable_components (links added / removed)   5 Data._set_pixel_aligned_data
+                    6 Data.remove_component   7 Data.add_component (replacing the values behind an existing attribute)
+               every site also records whether it is UNCONDITIONAL: executed whenever the mutating statement of its function is
+               (same or enclosing block, after it, no return in between); a call under a further `if` is conditional
 """
 import ast
 import os
@@ -197,7 +200,76 @@ def kind_of(fam, cname):
 
 
 PATHS = {'update_components': 0, 'update_values_from_data': 1, '__setattr__': 2, 'move_to': 3,
-         '_set_externally_derivable_components': 4, '_set_pixel_aligned_data': 5}
+         '_set_externally_derivable_components': 4, '_set_pixel_aligned_data': 5,
+         'remove_component': 6, 'add_component': 7}
+
+# the statements that ARE the mutation on each path (prefix of the unparsed statement).  A clearing call counts as
+# unconditional only if it is executed whenever every one of these statements of the function is executed: it must sit
+# in the same block as the mutating statement or in a block that encloses it, and after it.  A call nested under an `if`
+# (or loop / try / with) that does not also contain the mutation is "conditional" and does not cover the path.
+MUTATORS = {0: ['comp._data ='], 1: ['comp_old._data =', 'self._shape ='],
+            2: ['object.__setattr__('],
+            3: ['self._roi.move_to(', 'self.lo =', 'self.hi =', 'self.state1.move_to(', 'self.state2.move_to('],
+            4: ['self._externally_derivable_components ='], 5: ['self._pixel_aligned_data ='],
+            6: ['self._components.pop('], 7: ['self._components[component_id] =']}
+
+
+def block_paths(fn):
+    """statement node -> tuple of ids of the enclosing compound statements (with the branch name), innermost last"""
+    out = {}
+
+    def walk(stmts, path):
+        for st in stmts:
+            out[id(st)] = (path, st)
+            for field in ('body', 'orelse', 'finalbody', 'handlers'):
+                sub = getattr(st, field, None)
+                if isinstance(sub, list) and sub and not isinstance(st, (ast.FunctionDef, ast.ClassDef)):
+                    if field == 'handlers':
+                        for h in sub:
+                            walk(h.body, path + ((id(st), 'handler%d' % id(h)),))
+                    else:
+                        walk(sub, path + ((id(st), field),))
+    walk(fn.body, ())
+    return out
+
+
+def stmt_of(fn, node, bp):
+    """the statement of fn (as registered in bp) that contains the expression node"""
+    best = None
+    for path, st in bp.values():
+        if any(n is node for n in ast.walk(st)):
+            if best is None or len(path) > len(best[0]):
+                best = (path, st)
+    return best
+
+
+def is_unconditional(fn, call, path_no):
+    bp = block_paths(fn)
+    here = stmt_of(fn, call, bp)
+    if here is None:
+        return False
+    cpath, cst = here
+    # the call must be a statement of its own (not an operand of something else)
+    if not (isinstance(cst, ast.Expr) and cst.value is call):
+        return False
+    muts = []
+    for mpath, st in bp.values():
+        if isinstance(st, (ast.If, ast.For, ast.While, ast.Try, ast.With)):
+            continue
+        text = src(st)
+        if any(text.startswith(pref) for pref in MUTATORS.get(path_no, [])):
+            muts.append((mpath, st))
+    if not muts:
+        return False
+    for mpath, st in muts:
+        if mpath[:len(cpath)] != cpath or st.lineno >= cst.lineno:
+            return False
+    # no return between the last mutation and the call, in the call's own block or the blocks of the mutations
+    last = max(st.lineno for _, st in muts)
+    for _, st in bp.values():
+        if isinstance(st, ast.Return) and last < st.lineno < cst.lineno:
+            return False
+    return True
 
 
 def helper_scopes(modules):
@@ -211,7 +283,10 @@ def helper_scopes(modules):
             if not calls or fn.name == 'clear_cache':
                 continue
             text = src(fn)
-            if '__subclasses__()' in text and 'SubsetState' in text and all('to_mask' in src(c) for c in calls):
+            transitive = (any(isinstance(w, ast.While) and '__subclasses__()' in src(w) and ('.extend(' in src(w) or '.append(' in src(w))
+                              for w in ast.walk(fn)) or
+                          any(isinstance(n, ast.Call) and base_name(n.func) == fn.name for n in ast.walk(fn)))
+            if '__subclasses__()' in text and 'SubsetState' in text and all('to_mask' in src(c) for c in calls) and transitive:
                 out[fn.name] = 2
             elif ('state1' in text and 'state2' in text and 'states' in text and
                   any(isinstance(n, ast.Call) and base_name(n.func) == fn.name for n in ast.walk(fn))):
@@ -250,8 +325,9 @@ def clear_sites(modules):
                         continue
                     path = PATHS.get(fn.name, 99)
                     before = first_b is None or n.lineno < first_b
+                    uncond = scope == 0 or is_unconditional(fn, n, path)
                     sites.append({'where': '%s:%s.%s:%d' % (rel, cls.name, fn.name, n.lineno), 'path': path,
-                                  'scope': scope, 'before': before, 'fn': (rel, cls.name, fn.name)})
+                                  'scope': scope, 'before': before, 'fn': (rel, cls.name, fn.name), 'uncond': uncond})
     sites.sort(key=lambda s: s['where'])
     return sites, helpers
 
@@ -280,9 +356,10 @@ def generate(out_path):
         k = (st['path'], st['fn'])
         cur = per_fn.get(k)
         if st['scope'] == 99:
-            per_fn[k] = (-1, False)
-        elif cur is None or (cur[0] >= 0 and st['scope'] > cur[0]) or (cur[0] >= 0 and st['scope'] == cur[0] and st['before'] and not cur[1]):
-            per_fn[k] = (st['scope'], st['before'])
+            per_fn[k] = (-1, False, False)
+        elif cur is None or (cur[0] >= 0 and st['scope'] > cur[0]) or (
+                cur[0] >= 0 and st['scope'] == cur[0] and (st['before'], st['uncond']) > (cur[1], cur[2])):
+            per_fn[k] = (st['scope'], st['before'], st['uncond'])
     moveto_defs = [(fam[n]['module'], n, 'move_to') for n in names if n != 'SubsetState' and class_body_fn(fam[n], 'move_to') is not None]
     setattr_defs = [(fam['SubsetState']['module'], 'SubsetState', '__setattr__')]
     policy = {}
@@ -298,7 +375,7 @@ def generate(out_path):
         vals = [per_fn.get((path, fnk)) for fnk in required]
         if any(v is None or v[0] < 0 for v in vals):
             continue
-        policy[path] = (min(v[0] for v in vals), all(v[1] for v in vals))
+        policy[path] = (min(v[0] for v in vals), all(v[1] for v in vals), all(v[2] for v in vals))
     t = []
     t.append('(* REGENERATED by tools/gen/gen_memo.py from the working tree of glue -- do not edit.')
     t.append('   class table of the SubsetState family (memoised to_mask definitions, composite operators)')
@@ -307,7 +384,7 @@ def generate(out_path):
     t.append('Import ListNotations.')
     t.append('')
     t.append('Record cls := { c_idx : nat; c_parent : nat; c_def : nat; c_memo : bool; c_kind : nat; c_detail : nat; c_copy : nat }.')
-    t.append('Record site := { s_path : nat; s_scope : nat; s_before : bool }.')
+    t.append('Record site := { s_path : nat; s_scope : nat; s_before : bool; s_uncond : bool }.')
     t.append('')
     t.append('Definition classes : list cls := [')
     for k, r in enumerate(rows):
@@ -320,8 +397,9 @@ def generate(out_path):
     t.append('')
     t.append('Definition clear_sites : list site := [')
     for k, s in enumerate(sites):
-        t.append('  {| s_path := %d; s_scope := %d; s_before := %s |}%s  (* %s *)' % (
-            s['path'], s['scope'], 'true' if s['before'] else 'false', ';' if k + 1 < len(sites) else '', s['where']))
+        t.append('  {| s_path := %d; s_scope := %d; s_before := %s; s_uncond := %s |}%s  (* %s *)' % (
+            s['path'], s['scope'], 'true' if s['before'] else 'false', 'true' if s['uncond'] else 'false',
+            ';' if k + 1 < len(sites) else '', s['where']))
     t.append('].')
     t.append('')
     t.append('(* lookups used by the models *)')
@@ -334,13 +412,21 @@ def generate(out_path):
     t.append('(* the function caches that exist *)')
     t.append('Definition memo_fns : list nat := map c_idx (filter (fun r => c_memo r && Nat.eqb (c_def r) (c_idx r)) classes).')
     t.append('(* policy of a mutation path (0 update_components, 1 update_values_from_data, 2 attribute assignment on a state,')
-    t.append('   3 move_to, 4 links / externally derivable components, 5 pixel-aligned datasets): (path, scope, before the broadcast);')
+    t.append('   3 move_to, 4 links / externally derivable components, 5 pixel-aligned datasets, 6 remove_component,')
+    t.append('   7 add_component replacing an existing attribute): (path, scope, before the broadcast);')
     t.append('   a path that is not listed clears nothing *)')
     t.append('Definition path_policy : list (nat * nat * bool) := [')
     items = sorted(policy.items())
-    for k, (pth, (sc, bf)) in enumerate(items):
+    for k, (pth, (sc, bf, un)) in enumerate(items):
         t.append('  (%d, %d, %s)%s' % (pth, sc, 'true' if bf else 'false', ';' if k + 1 < len(items) else ''))
     t.append('].')
+    t.append('(* is the clearing on the path executed whenever the mutating statement is (true), or only under a further condition (false) *)')
+    t.append('Definition path_uncond : list (nat * bool) := [')
+    for k, (pth, (sc, bf, un)) in enumerate(items):
+        t.append('  (%d, %s)%s' % (pth, 'true' if un else 'false', ';' if k + 1 < len(items) else ''))
+    t.append('].')
+    t.append('Definition uncond_of (p : nat) : bool :=')
+    t.append('  match find (fun r => Nat.eqb (fst r) p) path_uncond with Some r => snd r | None => false end.')
     t.append('Definition find_policy (p : nat) : option (nat * nat * bool) := find (fun r => Nat.eqb (fst (fst r)) p) path_policy.')
     t.append('Definition scope_of (p : nat) : option nat := match find_policy p with Some r => Some (snd (fst r)) | None => None end.')
     t.append('Definition before_of (p : nat) : bool := match find_policy p with Some r => snd r | None => true end.')
